@@ -369,12 +369,16 @@ func (f *Frame) scanCallMods(cc *ssa.CallCommon, ms *modSet, seen map[*ssa.Funct
 			// closure value defined in this function?
 			if mc, ok := cc.Value.(*ssa.MakeClosure); ok {
 				fn = mc.Fn.(*ssa.Function)
+			} else if n, ok := cc.Value.Type().(*types.Named); ok && n.Obj().Pkg() != nil && e.prog.Contracts[funcKey(n.Obj().Pkg().Path(), n.Obj().Name(), "call")] != nil {
+				fc = e.prog.Contracts[funcKey(n.Obj().Pkg().Path(), n.Obj().Name(), "call")]
 			} else {
 				ms.all = true
 				return
 			}
 		}
-		fc = e.prog.contractFor(fn)
+		if fn != nil {
+			fc = e.prog.contractFor(fn)
+		}
 	}
 	if fc != nil && !fc.inlineOnly() {
 		if fc.Pure {
